@@ -114,6 +114,10 @@ fn tune_budget(r: &mut Xo, m: &mut Machine) {
     if r.chance(1, 8) {
         m.max_padding_frac = r.unit_f64();
     }
+    // a limit is set as soon as it is positive, however small
+    if r.chance(1, 12) {
+        m.max_padding_frac = *r.pick(&[f64::MIN_POSITIVE, 5.0e-324, 1.0e-300, 1.0e-17, f64::EPSILON, f64::EPSILON / 2.0, 1.0e-9]);
+    }
 }
 
 impl Prop for C02 {
@@ -139,7 +143,12 @@ impl Prop for C02 {
                     m
                 })
                 .collect();
-            (ms, *r.pick(&[0.0, 0.0, 0.25, 1.0 / 3.0, 0.5, 0.5, 1.0, 0.7]))
+            let pf = if r.chance(1, 12) {
+                *r.pick(&[f64::MIN_POSITIVE, 5.0e-324, 1.0e-300, 1.0e-17, f64::EPSILON, f64::EPSILON / 2.0, 1.0e-9])
+            } else {
+                *r.pick(&[0.0, 0.0, 0.25, 1.0 / 3.0, 0.5, 0.5, 1.0, 0.7])
+            };
+            (ms, pf)
         };
         let bf = *r.pick(&[0.0, 0.0, 0.5]);
         let rng_seed = rand_core::RngCore::next_u64(&mut r);
